@@ -5,6 +5,9 @@
 #include "common/engine.hpp"
 #include "common/solverkit.hpp"
 #include "common/tissuegen.hpp"
+#include "common/polygen.hpp"
+
+#include "simulation_initializer.hpp"
 
 using namespace vg;
 
@@ -47,11 +50,9 @@ static rc::Gen<Case> genCase() {
         // mostly epithelial clusters/chains in contact so that couplings exist; sometimes mixed classes
         c.tissue = *tg::genTissue(6, 1, *irange(0, 3) == 0 ? 0 : 1, false);
         c.threads = *rc::gen::element(1, 1, 2, 4);
-#if CONTACT_MODEL_INDEX == 0
-        c.face_types = 3;
-#else
-        c.face_types = *rc::gen::element(2, 3, 3, 4);  // start-up rejects epithelial types with fewer face types than the polarisation assigns
-#endif
+        // 1..4 face types per cell type; the population enters the solver through the real start-up validation (see startup_gate),
+        // which is expected to refuse what the polarisation code cannot index
+        c.face_types = *rc::gen::element(1, 2, 3, 3, 3, 4);
         auto genOp = rc::gen::exec([]() {
             Op o;
             o.kind = *rc::gen::weightedElement<int>({{6, STEP}, {2, SHRINK}, {2, INFLATE}});
@@ -140,6 +141,34 @@ static std::string invariants(sk::test_solver& S, Tracker& tr, bool population_c
     return "";
 }
 
+// The cell types reach the solver the way a user's do: through simulation_initializer (structure-based constructor, no
+// triangulation), with the tissue written as an input mesh. Returns false when start-up refuses the parameter set.
+static bool startup_gate(const Case& k, const tg::Built& b, const global_simulation_parameters& sp0, const std::string& dir, std::string& why, ct::CellScope& scope) {
+    std::filesystem::create_directories(dir);
+    std::map<int, short> type_index;
+    for (size_t i = 0; i < b.types.size(); i++) type_index[b.types[i]->global_type_id_] = (short)i;
+    std::vector<pg::VtkCell> cells;
+    for (auto& cd : k.tissue.cells) {
+        pg::VtkCell vc;
+        vc.poly = pg::from_trimesh(cd.mesh);
+        vc.type_id = type_index[cd.cls];
+        cells.push_back(vc);
+    }
+    pg::write_vtk(dir + "/gate.vtk", cells);
+    global_simulation_parameters sp = sp0;
+    sp.input_mesh_path_ = dir + "/gate.vtk";
+    sp.perform_initial_triangulation_ = false;
+    std::vector<cell_type_param_ptr> types(b.types.begin(), b.types.end());
+    try {
+        simulation_initializer init(sp, types, false);
+        scope.add(init.get_cell_lst());
+        return true;
+    } catch (const std::exception& e) {
+        why = e.what();
+        return false;
+    }
+}
+
 static std::string run(const Case& k, vf::Ctx& ctx) {
     ct::CellScope scope;
     tg::Built b;
@@ -166,6 +195,18 @@ static std::string run(const Case& k, vf::Ctx& ctx) {
     for (auto& c : b.cells) c->initialize_random_properties();
     const std::string out = sk::scratch_dir("c08");
     global_simulation_parameters sp = sk::basic_params(out, k.tissue.edge);
+    {
+        std::string why;
+        const bool ok = startup_gate(k, b, sp, out, why, scope);
+        std::error_code ec;
+        std::filesystem::remove_all(out, ec);
+        if (!ok) {
+            ctx.count("parameter_set_refused_at_startup");
+            if (k.face_types >= 3) return "start-up refused a parameter set with " + std::to_string(k.face_types) + " face types per cell type: " + why;
+            return "";
+        }
+        ctx.count("face_types_" + std::to_string(k.face_types) + "_accepted_at_startup");
+    }
     std::unique_ptr<sk::test_solver> S;
     try {
         S.reset(new sk::test_solver(sp, b.cells, k.threads));
